@@ -39,7 +39,7 @@ RULE = ('histories of 1-12 queries on ONE object: FluidMixture of 1-5 database c
         'get_values (scalar / list / ndarray depths inside, above and below the profile; list or str names incl. unknown names), '
         'get_units, buoyancy_frequency; every (method, state) pair is re-asked later in the history with probability 1/2; '
         'Blowout: initial parameters from 3 substances x 3-5 water data x 3 current data, 1-8 update calls drawn from all 13 update '
-        'methods (first every method once as a single-call sequence), 40 % of the random sequences switch num_oil_elements or '
+        'methods (first every method once as a single-call sequence and the oil bins switched off / on / off-and-back for a live oil), 40 % of the random sequences switch num_oil_elements or '
         'num_gas_elements to zero (half of them back). A history is '
         'non-trivial when its (object kind, method sequence, state pattern) is new')
 LEVEL_NOTE = ('theorems about hand-written store / flag models (all histories, by induction); tied to /repo by snapshot histories and '
@@ -621,6 +621,15 @@ def blowout_sequences(ctx, r, n, lines, owners):
                 # dirty flag is invisible whenever another call in the sequence sets it)
                 ops = [(OPS[seq], op_value(r, OPS[seq], waters, currents))]
                 init['water'] = r.randrange(len(prfs))
+            elif seq < len(OPS) + 3:
+                # sweep: the oil bins switched off / on / off-and-back as the only calls, for a live oil (gas present at
+                # standard conditions, so that both flow-rate conventions are defined)
+                init['water'] = r.randrange(len(prfs))
+                init['gor'] = r.uniform(500., 2500.)
+                k = seq - len(OPS)
+                init['num_oil_elements'] = 0 if k == 1 else r.randint(1, 4)
+                ops = [[('num_oil_elements', 0)], [('num_oil_elements', r.randint(1, 4))],
+                       [('num_oil_elements', 0), ('num_oil_elements', r.randint(1, 4))]][k]
             elif r.random() < 0.4:
                 which = r.choice(['num_oil_elements', 'num_gas_elements'])
                 pos = r.randrange(len(ops) + 1)
@@ -784,7 +793,7 @@ def run(ctx, lean_ok):
     particle_histories(ctx, r, ctx.n(45, 900), lines, owners)
     profile_histories(ctx, r, ctx.n(40, 800), lines, owners)
     coefs_cases(ctx, r, ctx.n(40, 600), lines, owners)
-    blowout_sequences(ctx, r, ctx.n(13 + 16, 13 + 300), lines, owners)
+    blowout_sequences(ctx, r, ctx.n(16 + 14, 16 + 300), lines, owners)
     for k, (d, x, text) in sorted(ctx.notes_raise.items()):
         ctx.notes.append('C20 finding candidate key=raises:%s first: %s on %r inputs %r' % (k, text, d, x))
 
